@@ -132,7 +132,7 @@ func (c *caseCtx) expectReject(class, name string, proof plonk.Proof, pub []*big
 func TestC02(t *testing.T) {
 	r := vcore.Start(t, "C02")
 	cvs := curves.Tier(r.Quick())
-	nCirc := r.Pick(6, 30)
+	nCirc := r.Pick(3, 30)
 	type job struct {
 		ops *cvapi.Ops
 		idx int
